@@ -380,6 +380,7 @@ fn command_line() -> impl Strategy<Value = String> {
         3 => prop_oneof![Just("next".to_string()), (0u32..300).prop_map(|n| format!("next {}", n)), Just("next 5x".to_string()), Just("next  12".to_string())],
         4 => prop::sample::select(files).prop_map(|f| format!("load {}", f)),
         3 => (0usize..GENERATED_PROGRAMS).prop_map(|k| format!("load g{:02}.asm", k)),
+        2 => prop::sample::select(long_names()).prop_map(|f| format!("load {}", f)),
         1 => prop::sample::select(vec!["foo", "sett FC = 1", "FB = 1", "unset FC = 1", "set", "=", "FC", "FC =", "set J3", "loadx", "lo ad good.asm", "set TEMP", "é", "set I3 = 1"]).prop_map(|s| s.to_string()),
     ];
     (base, any::<u32>(), prop_oneof![3 => Just(0u8), 1 => Just(1u8), 1 => Just(2u8)], spacing(), prop_oneof![4 => Just("".to_string()), 1 => Just(" xyz".to_string()), 1 => Just("x".to_string()), 1 => Just(" = true".to_string())]).prop_map(|(b, mask, casing, lead, tail)| {
@@ -508,6 +509,11 @@ pub fn prepare_scratch() {
     // a program that writes RAM outside its code (data cell, stack): a reload has to clear all of it again
     let counter = "#! mrasm\n LDSP 0xEF\nLOOP:\n LD R0, (0x80)\n INC R0\n ST (0x80), R0\n ST (0xFF), R0\n PUSH R0\n CALL SUB\n POP R1\n JR LOOP\nSUB:\n ST (0x81), R1\n RET\n";
     let _ = std::fs::write(d.join("counter.asm"), counter);
+    // long file names with a multi-byte character at every position around the places where a
+    // sidebar might cut them (the name is shown next to "Program:")
+    for (k, name) in long_names().iter().enumerate() {
+        let _ = std::fs::write(d.join(name), if k % 2 == 0 { good } else { good2 });
+    }
     // a program that drives both DACs to full scale (comparator bits drop) and then idles
     let _ = std::fs::write(d.join("dac.asm"), "#! mrasm\n LD R0, 0xFF\n ST (0xF0), R0\n ST (0xF1), R0\nL:\n JR L\n");
     // same name in another letter case, different program: paths are case-sensitive, keywords are not
@@ -533,6 +539,20 @@ pub fn prepare_scratch() {
         }
     }
     let _ = std::env::set_current_dir(d);
+}
+
+/// 27..=40 byte names: k ASCII characters, one 2/3/4-byte character, the rest ASCII
+pub fn long_names() -> Vec<String> {
+    let mut v = vec![];
+    for (i, ch) in ['é', '€', '𝄞'].iter().enumerate() {
+        for lead in [0usize, 1, 2, 3, 5, 9, 14] {
+            for total in [22usize, 26, 31] {
+                let tail = total.saturating_sub(lead);
+                v.push(format!("{}{}{}{}.asm", "n".repeat(lead), ch, "x".repeat(tail), i));
+            }
+        }
+    }
+    v
 }
 
 #[derive(Default)]
